@@ -38,9 +38,10 @@ def _get_lark():
 GRAMMAR = r"""
 start: stmt ";"?
 ?stmt: create_table | create_index | pragma | vacuum | insert | update | delete | select
-create_table: "CREATE"i "TABLE"i ("IF"i "NOT"i "EXISTS"i)? NAME "(" coldef ("," coldef)* ("," fk)* ")"
+create_table: "CREATE"i "TABLE"i ("IF"i "NOT"i "EXISTS"i)? NAME "(" coldef ("," coldef)* ("," (fk | check_c))* ")"
+check_c: "CHECK"i "(" CHECKBODY ")"
 coldef: NAME TYPE colopt*
-colopt: "PRIMARY"i "KEY"i -> pk | "AUTOINCREMENT"i -> autoinc | "UNIQUE"i -> unique | "NOT"i "NULL"i -> notnull | "COLLATE"i NAME -> collate | "DEFAULT"i (NUMBER | STRING | NAME) -> default
+colopt: "CHECK"i "(" CHECKBODY ")" -> colcheck | "PRIMARY"i "KEY"i -> pk | "AUTOINCREMENT"i -> autoinc | "UNIQUE"i -> unique | "NOT"i "NULL"i -> notnull | "COLLATE"i NAME -> collate | "DEFAULT"i (NUMBER | STRING | NAME) -> default
 fk: "FOREIGN"i "KEY"i "(" NAME ")" "REFERENCES"i NAME "(" NAME ")"
 create_index: "CREATE"i UNIQUE? "INDEX"i ("IF"i "NOT"i "EXISTS"i)? NAME "ON"i NAME "(" NAME ("," NAME)* ")"
 pragma: "PRAGMA"i NAME ("=" (NAME | NUMBER) | "(" (NAME | NUMBER) ")")?
@@ -63,6 +64,7 @@ ordkey: colref (ASC|DESC)?
 limit: "LIMIT"i expr
 ?expr: PARAM | NUMBER | colref | func | "(" select ")" -> subselect
 colref: NAME ("." NAME)?
+CHECKBODY: /[^()]+/
 UNIQUE: "UNIQUE"i
 NOTHING: "NOTHING"i
 OR_REPLACE: "OR"i /\s+/ ("REPLACE"i | "ROLLBACK"i | "ABORT"i | "FAIL"i | "IGNORE"i)
@@ -314,11 +316,15 @@ def _build(tree):
                     name = str(c.children[0])
                     opts = {str(c.children[1]).upper()}
                     for o in c.children[2:]:
-                        if isinstance(o, Tree) and o.data in ("collate", "default"):
+                        if isinstance(o, Tree) and o.data == "colcheck":
+                            st.__dict__.setdefault("checks", []).append(" ".join(str(o.children[0]).split()))
+                        elif isinstance(o, Tree) and o.data in ("collate", "default"):
                             opts.add(f"{o.data}:{str(o.children[0]).upper()}")
                         else:
                             opts.add(o.data if isinstance(o, Tree) else str(o))
                     st.coldefs[name] = opts
+                elif isinstance(c, Tree) and c.data == "check_c":
+                    st.__dict__.setdefault("checks", []).append(" ".join(str(c.children[0]).split()))
         elif t.data == "create_index":
             toks = [x for x in ch if isinstance(x, Token)]
             st.unique_index = any(x.type == "UNIQUE" for x in toks)
